@@ -62,6 +62,22 @@ def Res.errStr {α} : Res α → Str
 @[simp] theorem Res.errStr_err {α} (e : Str) : (Res.err e : Res α).errStr = e := rfl
 @[simp] theorem Res.errStr_ok {α} (a : α) : (Res.ok a).errStr = Str.empty := rfl
 
+/-- `Result<α, ε>` whose error is a plain value (an integer, `()`), not a message -/
+inductive ResV (ε α : Type) where
+  | ok (a : α)
+  | err (e : ε)
+  deriving Repr
+
+def ResV.isErr {ε α} : ResV ε α → Bool
+  | .ok _ => false
+  | .err _ => true
+def ResV.errVal {ε α} [Inhabited ε] : ResV ε α → ε
+  | .ok _ => default
+  | .err e => e
+
+@[simp] theorem ResV.isErr_ok {ε α} (a : α) : (ResV.ok a : ResV ε α).isErr = false := rfl
+@[simp] theorem ResV.isErr_err {ε α} (e : ε) : (ResV.err e : ResV ε α).isErr = true := rfl
+
 /-- `Option::unwrap` on a value the code has just made `Some` (the `None` case is a panic site of C04's model) -/
 def unwrapD {α : Type} [Inhabited α] (o : Option α) : α := o.getD default
 
